@@ -166,6 +166,36 @@ class NativeVC:
     def intset(self, name, probe=None):
         return frozenset(self._get(name))
 
+    def _fill(self):
+        if getattr(self, "_filler", None) is None:
+            import random
+
+            self._filler = GenVC(random.Random(12345))
+            self._filler._intern = self._intern
+        return self._filler
+
+    def seq(self, name, gen):
+        info = self._get(name)
+        n = min(int(info["len"]), 64)
+        idx = info.get("indices", {})
+        out = []
+        for i in range(n):
+            keys = [k for k, ci in idx.items() if ci == i]
+            if keys:
+                out.append(gen(self, f"{name}[{keys[0]}]"))
+            else:
+                out.append(gen(self._fill(), f"{name}[fill{i}]"))
+        return tuple(out)
+
+    def sym_list(self, name):
+        return []
+
+    def list_tail(self, l):
+        return list(l)
+
+    def text(self, name, minlen=0, maxlen=None, exclude=None):
+        return self._get(name)
+
     # ---- facts
     def assume(self, c):
         if not c:
@@ -402,7 +432,23 @@ class GenVC(NativeVC):
 
     def bytes(self, name, minlen=0, maxlen=None, native_from=None, hint=None):
         r = self.rng
-        if hint == "someip*" and r.random() < 0.8:
+        if hint == "config" and r.random() < 0.85:
+            items = []
+            for _ in range(r.choice([0, 1, 1, 2, 3])):
+                k = "".join(r.choice("abk") for _ in range(r.choice([1, 1, 2, 3])))
+                kind = r.random()
+                if kind < 0.3:
+                    items.append(k.encode())
+                elif kind < 0.6:
+                    items.append((k + "=" + "".join(r.choice("xy=") for _ in range(r.choice([0, 1, 2, 4])))).encode())
+                else:
+                    items.append(bytes(r.choice([61, 97, 0x80, 0xC3, 0x7F]) for _ in range(r.choice([1, 2, 3]))))
+            b = bytes([r.choice([0, 0, 7])]) + b"".join(bytes([len(i)]) + i for i in items) + bytes([0])
+            if r.random() < 0.2:
+                b += bytes(r.randrange(256) for _ in range(r.randrange(1, 5)))
+            if r.random() < 0.15 and len(b) > 2:
+                b = b[: r.randrange(1, len(b))]
+        elif hint == "someip*" and r.random() < 0.8:
             b = b"".join(self._someip() for _ in range(r.choice([1, 1, 2, 3])))
             k = r.random()
             if k < 0.2:
@@ -425,6 +471,19 @@ class GenVC(NativeVC):
 
     def _ident(self, tag):
         return "Obj!val!%d" % self.rng.randrange(3)
+
+    def seq(self, name, gen):
+        n = self.rng.choice([0, 1, 1, 2, 3])
+        self.model[name] = {"len": n, "indices": {str(i): i for i in range(n)}}
+        return tuple(gen(self, f"{name}[{i}]") for i in range(n))
+
+    def text(self, name, minlen=0, maxlen=None, exclude=None):
+        r = self.rng
+        hi = maxlen if maxlen is not None else minlen + r.choice([0, 1, 2, 3, 10])
+        n = r.randint(minlen, max(minlen, min(hi, minlen + 12)))
+        alphabet = [c for c in "ab=z\x00\x7f 0" if exclude is None or ord(c) != exclude]
+        t = "".join(r.choice(alphabet) for _ in range(n))
+        return self._rec(name, t)
 
     def opaque(self, name, tag="obj"):
         ident = self._ident(tag)
